@@ -481,19 +481,22 @@ func TestVerifHarnessC05(t *testing.T) {
 		return func(st *c05State) *c05Viol { return c05RunAll(st, p, c05Writers, opens) }
 	}
 
-	// phase 1: tiny datasets (cols a,b), each also with a unique id column
+	// phase 1: tiny datasets (cols a,b), each also with a unique id column: every row sequence of length <= 2
 	L, nRand := 2, 60
 	if thorough {
 		L, nRand = 3, 3000
 	}
 	var jobs []c05Job
-	tiny := append(c05TinyDatasets(L), c05RandomTiny(rng, nRand, L+1, 12)...)
-	for _, d := range tiny {
-		jobs = append(jobs, allWriters(&c05Plan{ds: d, maxProbes: 50, seed: seed}))
-		jobs = append(jobs, allWriters(&c05Plan{ds: c05WithID(d), maxProbes: 50, seed: seed}))
+	tinyJobs := func(ds []*c05Dataset) []c05Job {
+		var out []c05Job
+		for _, d := range ds {
+			out = append(out, allWriters(&c05Plan{ds: d, maxProbes: 50, seed: seed}))
+			out = append(out, allWriters(&c05Plan{ds: c05WithID(d), maxProbes: 50, seed: seed}))
+		}
+		return out
 	}
 	boundText = fmt.Sprintf("bound=%s seed=%d; open sequence %v (first open from the writer's DB handle where the caller supplies it, then Close+OpenIndex of the file); all row sequences of length<=%d over 9 row types (cols a,b; empty row) + %d random of length<=12, each with and without unique id column, 3 writers + cross-writer comparison", bound, seed, opens, L, nRand)
-	if v := r.run("tiny", jobs, jobTimeout); v != nil {
+	if v := r.run("tiny (length<=2)", tinyJobs(c05TinyDatasets(2)), jobTimeout); v != nil {
 		c05Report(t, "C05", v)
 	}
 
@@ -512,6 +515,18 @@ func TestVerifHarnessC05(t *testing.T) {
 		boundText += "; (value-index-0 pair could not be constructed: skipped)"
 	}
 	if v := r.run("value index 0", jobs, jobTimeout); v != nil {
+		c05Report(t, "C05", v)
+	}
+
+	// phase 2b: the remaining tiny datasets (length 3 in thorough mode, random longer ones)
+	var moreTiny []*c05Dataset
+	for _, d := range c05TinyDatasets(L) {
+		if len(d.Rows) > 2 {
+			moreTiny = append(moreTiny, d)
+		}
+	}
+	moreTiny = append(moreTiny, c05RandomTiny(rng, nRand, L+1, 12)...)
+	if v := r.run("tiny (longer)", tinyJobs(moreTiny), jobTimeout); v != nil {
 		c05Report(t, "C05", v)
 	}
 
